@@ -39,25 +39,50 @@ fn c11_ci_wilson_domain_errors() {
         _ => assert!(false, "outside the documented domain the result must be the documented error"),
     }
 }
-// ... and on the domain: Ok is a well-formed interval with the natural far end; never a panic, never NaN
-#[kani::proof]
-#[kani::solver(kissat)]
-#[kani::stub(crate::stats::z_value, stub_z_value)]
-fn c11_ci_wilson_wellformed_on_domain() {
-    let c = any_confidence();
+// ... and on the domain: never a panic, never NaN; for a non-negative critical value (level >= 1/2) always Ok and ordered.
+// The critical value is any finite number of the given sign (assumed contract of z_value), independent of the level.
+fn z_any_nonneg(_c: Confidence) -> f64 { let z: f64 = kani::any(); kani::assume(z >= 0.0 && z <= 1.0e6); z }
+fn z_any_neg(_c: Confidence) -> f64 { let z: f64 = kani::any(); kani::assume(z < 0.0 && z >= -1.0e6); z }
+fn any_kind_conf() -> Confidence {
+    match kani::any::<u8>() % 3 { 0 => Confidence::TwoSided(0.75), 1 => Confidence::UpperOneSided(0.75), _ => Confidence::LowerOneSided(0.75) }
+}
+fn wilson_wellformed(max_n: usize) {
+    let c = any_kind_conf();
     let n: usize = kani::any();
     let k: usize = kani::any();
-    kani::assume(n <= 65_536 && 2 <= k && k <= n && n - k >= 2);
+    kani::assume(n <= max_n && 2 <= k && k <= n && n - k >= 2);
     match ci_wilson(c, n, k) {
         Ok(i) => {
             assert!(matches!(i, Interval::TwoSided(l, h) if !l.is_nan() && !h.is_nan() && l <= h), "Ok with NaN or inverted bounds");
             kani::cover!(true, "ok");
         }
-        // lower bound above upper bound can only be reported for a confidence level below 1/2 (negative critical value)
-        Err(CIError::IntervalError(_)) => { assert!(c.quantile() < 0.5); }
+        Err(_) => assert!(false, "on the documented domain and for a level >= 1/2 the result is an interval"),
+    }
+}
+fn wilson_negative_z(max_n: usize) {
+    let c = any_kind_conf();
+    let n: usize = kani::any();
+    let k: usize = kani::any();
+    kani::assume(n <= max_n && 2 <= k && k <= n && n - k >= 2);
+    match ci_wilson(c, n, k) {
+        Ok(i) => { assert!(matches!(i, Interval::TwoSided(l, h) if !l.is_nan() && !h.is_nan() && l <= h), "Ok with NaN or inverted bounds"); kani::cover!(true, "ok"); }
+        Err(CIError::IntervalError(_)) => { kani::cover!(true, "inverted bounds reported"); }
         Err(_) => assert!(false, "undocumented error variant"),
     }
 }
+// quick tier: populations up to 4096; thorough tier: up to 10^6 (130 s / 350 s of solver time)
+#[kani::proof]
+#[kani::stub(crate::stats::z_value, z_any_nonneg)]
+fn c11_ci_wilson_wellformed_on_domain() { wilson_wellformed(4_096); }
+#[kani::proof]
+#[kani::stub(crate::stats::z_value, z_any_neg)]
+fn c11_ci_wilson_negative_critical_value() { wilson_negative_z(4_096); }
+#[kani::proof]
+#[kani::stub(crate::stats::z_value, z_any_nonneg)]
+fn c11t_ci_wilson_wellformed_on_domain_1e6() { wilson_wellformed(1_000_000); }
+#[kani::proof]
+#[kani::stub(crate::stats::z_value, z_any_neg)]
+fn c11t_ci_wilson_negative_critical_value_1e6() { wilson_negative_z(1_000_000); }
 
 // ---- C02: the success-ratio front-end returns the interval of the counts it implies:
 // for every k <= n, ci_wilson_ratio(c, n, k/n) takes the same branch with the same count as ci_wilson(c, n, k)
@@ -158,4 +183,27 @@ fn c11_proportion_stats_new_rejects() {
     kani::assume(k > n);
     let _s = Stats::new(n, k);
     kani::cover!(true, "REACH_AFTER_REJECT");
+}
+
+// ---- C11: the Wald variant is total: documented errors outside its domain, never a panic, Ok only well-formed
+#[kani::proof]
+#[kani::solver(kissat)]
+#[kani::stub(crate::stats::z_value, stub_z_value)]
+fn c11_ci_z_normal_total() {
+    let c = any_confidence();
+    let n: usize = kani::any();
+    let k: usize = kani::any();
+    kani::assume(n <= 65_536);
+    match ci_z_normal(c, n, k) {
+        Ok(i) => {
+            assert!(k <= n && n >= 20, "Ok needs n*p >= 10 and n*q >= 10");
+            assert!(matches!(i, Interval::TwoSided(l, h) if !l.is_nan() && !h.is_nan() && l <= h), "Ok with NaN or inverted bounds");
+            kani::cover!(true, "ok");
+        }
+        Err(CIError::InvalidSuccesses(a, b)) => { assert!(k > n && a == k && b == n); kani::cover!(true, "invalid successes"); }
+        Err(CIError::TooFewSuccesses(a, b, _)) => { assert!(k <= n && a == k && b == n); kani::cover!(true, "too few successes"); }
+        Err(CIError::TooFewFailures(a, b, _)) => { assert!(k <= n && a == n - k && b == n); kani::cover!(true, "too few failures"); }
+        Err(CIError::IntervalError(_)) => { kani::cover!(true, "bounds not ordered (level below 1/2 or bound beyond the natural end)"); }
+        Err(_) => assert!(false, "undocumented error variant"),
+    }
 }
